@@ -62,7 +62,7 @@ const BUF: u64 = 8192;
 
 fn describe(ctx: &Ctx) {
     *ctx.level.lock().unwrap() = "fault_enumeration".into();
-    ctx.rule("fault plans over (save kind in xlsx/light/csv/password) x (workbook spec below/above the 8 KiB BufWriter buffer, csv files of exactly 8191/8192/8193 bytes) x (destination absent / old content shorter / longer than the new file): fsize = RLIMIT_FSIZE N in {0,1,2,511..513,4095..4097,8191..8193,len-2..len+1} + seeded offsets (thorough: every N for files <= 9 KiB, stride otherwise); target = missing dir / destination is an (empty|non-empty) directory / temp name is a directory; kill = SIGKILL on entry of the k-th call of every traced file syscall after the save began (all k when a name occurs <= 12 times, else first/last 4 + seeded sample; thorough: up to 2500 per name); errno = k-th openat/write/lseek/rename/unlink fails; observer = reader threads during alternating saves (also to a destination called book.tmp); stale = a stale temp file under the library's temp name (larger/equal/smaller than the output, read-only) x {healthy, fsize, kill/errno at rename}; names = destination names {no extension, *.tmp, *.<ext>.tmp, several dots, dot-file} x {healthy, fsize, kill, stale temp}; chain = a killed/failed save followed by a second save in the same directory; concurrent = same-stem destinations saved concurrently; sink = generated (workbook, chunk size, failing call index, mode) plans. Non-trivial = the fault lands strictly inside the save (0 < N < file length; kill after the temp file was created and before the helper reported; strace marked a call INJECTED; the sink's failing call index was reached; the observer saw >= 2 different complete files; the second save of a chain met a leftover temp file; a concurrent saver completed >= 2 saves); distinct by the serialised case");
+    ctx.rule("fault plans over (save kind in xlsx/light/csv/password) x (workbook spec below/above the 8 KiB BufWriter buffer, csv files of exactly 8191/8192/8193 bytes) x (destination absent / old content shorter / longer than the new file / old content read-only 0444 / a symbolic link to a file with old content): fsize = RLIMIT_FSIZE N in {0,1,2,511..513,4095..4097,8191..8193,len-2..len+1} + seeded offsets (thorough: every N for files <= 9 KiB, stride otherwise); target = missing dir / destination is an (empty|non-empty) directory / temp name is a directory; kill = SIGKILL on entry of the k-th call of every traced file syscall after the save began (all k when a name occurs <= 12 times, else first/last 4 + seeded sample; thorough: up to 2500 per name), the syscall list being taken from a dry run with the same pre-state (plain, read-only, symlink); errno = k-th openat/write/lseek/rename/unlink fails; observer = reader threads during alternating saves (also to a destination called book.tmp); stale = a stale temp file under the library's temp name (larger/equal/smaller than the output, read-only) x {healthy, fsize, kill/errno at rename}; names = destination names {no extension, *.tmp, *.<ext>.tmp, several dots, dot-file} x {healthy, fsize, kill, stale temp}; chain = a killed/failed save followed by a second save in the same directory; concurrent = same-stem destinations saved concurrently; sink = generated (workbook, chunk size, failing call index, mode) plans. Non-trivial = the fault lands strictly inside the save (0 < N < file length; kill after the temp file was created and before the helper reported; strace marked a call INJECTED; the sink's failing call index was reached; the observer saw >= 2 different complete files; the second save of a chain met a leftover temp file; a concurrent saver completed >= 2 saves); distinct by the serialised case");
     ctx.assume("rename(2) is atomic with respect to concurrent open(2)+read(2) of the destination (kernel guarantee); instants inside one syscall are not enumerated");
     ctx.assume("RLIMIT_FSIZE with SIGXFSZ ignored models 'disk full / size limit': the kernel accepts bytes up to offset N and fails the rest with EFBIG");
     ctx.assume("a complete encrypted file is one whose compound-file structure validates (cfb crate), whose two streams read to the end and whose package decrypts with the password (decryptor written in the harness) to a complete zip with the same cells");
@@ -79,6 +79,38 @@ pub enum Pre {
     Absent,
     /// destination holds `old_content(len)`
     Old { len: u32 },
+    /// the same, and the file is read-only (mode 0444; as root still replaceable and writable —
+    /// the pre-state only has to exist)
+    OldReadOnly { len: u32 },
+    /// destination is a symbolic link to a file `link-target.dat` that holds `old_content(len)`
+    SymlinkToOld { len: u32 },
+}
+
+pub const LINK_TARGET: &str = "link-target.dat";
+
+fn apply_pre(dir: &Path, dest: &Path, pre: &Pre) -> std::io::Result<()> {
+    use std::os::unix::fs::PermissionsExt;
+    match pre {
+        Pre::Absent => Ok(()),
+        Pre::Old { len } => std::fs::write(dest, old_content(*len)),
+        Pre::OldReadOnly { len } => {
+            std::fs::write(dest, old_content(*len))?;
+            std::fs::set_permissions(dest, std::fs::Permissions::from_mode(0o444))
+        }
+        Pre::SymlinkToOld { len } => {
+            let t = dir.join(LINK_TARGET);
+            std::fs::write(&t, old_content(*len))?;
+            std::os::unix::fs::symlink(&t, dest)
+        }
+    }
+}
+
+fn pre_suffix(pre: &Pre) -> &'static str {
+    match pre {
+        Pre::OldReadOnly { .. } => "+readonly-dest",
+        Pre::SymlinkToOld { .. } => "+symlink-dest",
+        _ => "",
+    }
 }
 
 #[derive(Debug, Clone, PartialEq, Eq, Hash, Serialize, Deserialize)]
@@ -172,7 +204,8 @@ enum Snap {
 }
 
 fn snapshot(p: &Path) -> Snap {
-    match std::fs::symlink_metadata(p) {
+    // follows symbolic links: the statement is about what a reader of the path gets
+    match std::fs::metadata(p) {
         Err(e) if e.kind() == std::io::ErrorKind::NotFound => Snap::Absent,
         Err(e) => Snap::Other(format!("{}", e)),
         Ok(m) if m.is_dir() => {
@@ -324,6 +357,9 @@ pub struct Info {
 
 fn fault_class(c: &PathCase, new_len: u64) -> String {
     let mut base = fault_class_base(c, new_len);
+    if !matches!(c.fault, Fault::MissingDir | Fault::DestIsDir { .. }) {
+        base.push_str(pre_suffix(&c.pre));
+    }
     if let Some(n) = &c.name {
         base.push_str(&format!("+name-{}", name_class(n)));
     }
@@ -370,8 +406,7 @@ pub fn check_path_case(c: &PathCase, want_trace: bool) -> Result<(Verdict, Info)
                 io(std::fs::write(dest.join("keep.txt"), b"keep"))?;
             }
         }
-        (_, Pre::Old { len }) => io(std::fs::write(&dest, old_content(*len)))?,
-        (_, Pre::Absent) => {}
+        (_, pre) => io(apply_pre(&dir, &dest, pre))?,
     }
     if c.fault == Fault::TmpIsDir {
         io(std::fs::create_dir(lib_tmp_path(&dest)))?;
@@ -418,7 +453,7 @@ fn run_step(c: &PathCase, dir: &Path, dest: &Path, want_trace: bool) -> Result<(
     if let Ok(rd) = std::fs::read_dir(dir) {
         for e in rd.flatten() {
             let n = e.file_name().to_string_lossy().to_string();
-            if n != fname && n != "missing" && !(c.fault == Fault::TmpIsDir && n == tmpname) {
+            if n != fname && n != "missing" && n != LINK_TARGET && !(c.fault == Fault::TmpIsDir && n == tmpname) {
                 info.leftovers.push(n);
             }
         }
@@ -724,6 +759,19 @@ pub struct ObsCase {
     /// destination file name (default `book.<ext>`)
     #[serde(default, skip_serializing_if = "Option::is_none")]
     pub name: Option<String>,
+    /// the destination is read-only (0444) whenever a save starts: the old file initially,
+    /// and the saver makes each finished new file read-only again before the next save
+    #[serde(default, skip_serializing_if = "is_false")]
+    pub readonly: bool,
+}
+
+fn is_false(b: &bool) -> bool {
+    !*b
+}
+
+fn make_readonly(p: &Path) {
+    use std::os::unix::fs::PermissionsExt;
+    let _ = std::fs::set_permissions(p, std::fs::Permissions::from_mode(0o444));
 }
 
 pub struct ObsInfo {
@@ -738,6 +786,9 @@ pub fn check_observer(c: &ObsCase) -> Result<(Verdict, ObsInfo), Trouble> {
     let dest = td.path.join(c.name.clone().unwrap_or_else(|| default_name(c.kind)));
     let old = old_content(c.old_len);
     std::fs::write(&dest, &old).map_err(|e| Trouble(format!("cannot write {}: {}", dest.display(), e)))?;
+    if c.readonly {
+        make_readonly(&dest);
+    }
     let book_a = build_book(&c.spec_a);
     let book_b = build_book(&c.spec_b);
     let done = AtomicBool::new(false);
@@ -750,6 +801,7 @@ pub fn check_observer(c: &ObsCase) -> Result<(Verdict, ObsInfo), Trouble> {
         Some(n) => format!("{}+name-{}", c.kind.tag(), name_class(n)),
         None => c.kind.tag().to_string(),
     };
+    let kind = if c.readonly { format!("{}+readonly-dest", kind) } else { kind };
     let kind = kind.as_str();
     let observed: Mutex<HashMap<u64, Vec<u8>>> = Mutex::new(HashMap::new());
     let missing = AtomicU64::new(0);
@@ -823,6 +875,10 @@ pub fn check_observer(c: &ObsCase) -> Result<(Verdict, ObsInfo), Trouble> {
                             let mut cs = complete_set.lock().unwrap();
                             if !cs.iter().any(|x| x == &b) {
                                 cs.push(b);
+                            }
+                            drop(cs);
+                            if c.readonly {
+                                make_readonly(&dest);
                             }
                         }
                     },
@@ -904,9 +960,7 @@ pub fn check_chain(c: &ChainCase) -> Result<(Verdict, Vec<Info>), Trouble> {
     let dir = td.path.clone();
     let dest = dir.join(c.name.clone().unwrap_or_else(|| default_name(c.kind)));
     let io = |r: std::io::Result<()>| r.map_err(|e| Trouble(format!("cannot prepare {}: {}", dir.display(), e)));
-    if let Pre::Old { len } = &c.pre {
-        io(std::fs::write(&dest, old_content(*len)))?;
-    }
+    io(apply_pre(&dir, &dest, &c.pre))?;
     let mut infos = Vec::new();
     let mut prev = String::from("first");
     for (i, st) in c.steps.iter().enumerate() {
@@ -951,6 +1005,9 @@ pub struct ConcCase {
     pub specs: Vec<BookSpec>,
     pub iterations: u32,
     pub old_len: u32,
+    /// every destination is read-only (0444) whenever a save to it starts
+    #[serde(default, skip_serializing_if = "is_false")]
+    pub readonly: bool,
 }
 
 pub struct ConcInfo {
@@ -969,9 +1026,13 @@ pub fn check_concurrent(c: &ConcCase) -> Result<(Verdict, ConcInfo), Trouble> {
     let olds: Vec<Vec<u8>> = (0..n).map(|i| old_content(c.old_len + i as u32 * 17)).collect();
     for (d, o) in dests.iter().zip(&olds) {
         std::fs::write(d, o).map_err(|e| Trouble(format!("cannot write {}: {}", d.display(), e)))?;
+        if c.readonly {
+            make_readonly(d);
+        }
     }
     let books: Vec<_> = c.specs.iter().take(n).map(build_book).collect();
-    let kind = c.kind.tag();
+    let kind_s = if c.readonly { format!("{}+readonly-dest", c.kind.tag()) } else { c.kind.tag().to_string() };
+    let kind = kind_s.as_str();
     let fail: Mutex<Option<Verdict>> = Mutex::new(None);
     let trouble: Mutex<Option<Trouble>> = Mutex::new(None);
     let completes: Vec<Mutex<Vec<Vec<u8>>>> = olds.iter().map(|o| Mutex::new(vec![o.clone()])).collect();
@@ -1054,6 +1115,9 @@ pub fn check_concurrent(c: &ConcCase) -> Result<(Verdict, ConcInfo), Trouble> {
                                             cs.push(b.clone());
                                         }
                                         last_complete = b;
+                                        if c.readonly {
+                                            make_readonly(&dests[i]);
+                                        }
                                     }
                                 },
                             }
@@ -1252,7 +1316,10 @@ fn extra(ctx: &Ctx) {
     let leg = Leg { ctx, troubles: Mutex::new(Vec::new()), leftovers: Mutex::new(BTreeMap::new()) };
     let combos = combos(ctx.seed);
     let strace = strace_available();
-    let pres = |full: u64| -> Vec<Pre> { vec![Pre::Old { len: 1500 }, Pre::Absent, Pre::Old { len: (full + 20_000) as u32 }] };
+    let pres = |full: u64| -> Vec<Pre> {
+        vec![Pre::Old { len: 1500 }, Pre::Absent, Pre::Old { len: (full + 20_000) as u32 }, Pre::OldReadOnly { len: 1500 }, Pre::SymlinkToOld { len: 1500 }]
+    };
+    let special_pres = [Pre::OldReadOnly { len: 1500 }, Pre::SymlinkToOld { len: 1500 }];
 
     // ---- healthy dry runs (traced when strace works): file lengths and syscall lists
     let mut lens: Vec<u64> = Vec::new();
@@ -1289,6 +1356,36 @@ fn extra(ctx: &Ctx) {
                 }
             }
         }
+    }
+
+    // dry runs of the traced combos with a read-only / symlinked destination: the syscall list
+    // of a save may depend on the pre-state (e.g. an extra unlink), so each gets its own
+    let mut special_traces: Vec<Vec<Option<Vec<TraceLine>>>> = Vec::new(); // [pre][combo]
+    for sp in &special_pres {
+        let dry: Vec<Result<(Verdict, Info), Trouble>> = combos
+            .par_iter()
+            .map(|cb| {
+                let c = PathCase { spec: cb.spec.clone(), kind: cb.kind, pre: sp.clone(), fault: Fault::None, name: None, stale_tmp: None };
+                check_path_case(&c, strace.is_ok() && cb.traced)
+            })
+            .collect();
+        let mut row = Vec::new();
+        for (cb, r) in combos.iter().zip(dry) {
+            let c = PathCase { spec: cb.spec.clone(), kind: cb.kind, pre: sp.clone(), fault: Fault::None, name: None, stale_tmp: None };
+            match r {
+                Err(t) => {
+                    leg.troubles.lock().unwrap().push(format!("dry run {:?}: {}", c, t.0));
+                    row.push(None);
+                }
+                Ok((v, info)) => {
+                    ctx.count_case(case_fp("healthy", &c), false);
+                    ctx.add_class(&format!("fsize/{}/healthy{}/{}", cb.kind.tag(), pre_suffix(sp), info.outcome), 1);
+                    ctx.judge("fsize", &c, v);
+                    row.push(info.trace);
+                }
+            }
+        }
+        special_traces.push(row);
     }
 
     // ---- (a) byte-offset sweep
@@ -1349,7 +1446,7 @@ fn extra(ctx: &Ctx) {
         for f in [Fault::MissingDir, Fault::DestIsDir { nonempty: false }, Fault::DestIsDir { nonempty: true }] {
             target_cases.push(PathCase { spec: cb.spec.clone(), kind: cb.kind, pre: Pre::Absent, fault: f, name: None, stale_tmp: None });
         }
-        for p in [Pre::Absent, Pre::Old { len: 1500 }] {
+        for p in [Pre::Absent, Pre::Old { len: 1500 }, Pre::OldReadOnly { len: 1500 }, Pre::SymlinkToOld { len: 1500 }] {
             target_cases.push(PathCase { spec: cb.spec.clone(), kind: cb.kind, pre: p, fault: Fault::TmpIsDir, name: None, stale_tmp: None });
         }
     }
@@ -1423,6 +1520,50 @@ fn extra(ctx: &Ctx) {
                 if complete_here {
                     exhaustive_kill.push(format!("{}/{}", cb.kind.tag(), cb.label));
                 }
+                // the same sweep over the syscall list of a save onto a read-only / symlinked
+                // destination (short lists: every call; long lists: first 2 and last 8 per name)
+                for (pi, sp) in special_pres.iter().enumerate() {
+                    let Some(tr) = &special_traces[pi][i] else { continue };
+                    let mut per_name: BTreeMap<String, Vec<u32>> = BTreeMap::new();
+                    for l in tr.iter().filter(|l| l.after_begin) {
+                        per_name.entry(l.name.clone()).or_default().push(l.k);
+                    }
+                    for (name, ks) in &per_name {
+                        let chosen: Vec<u32> = if ks.len() <= 12 || thorough && ks.len() <= 400 {
+                            ks.clone()
+                        } else {
+                            let mut b: BTreeSet<u32> = ks.iter().take(2).cloned().collect();
+                            b.extend(ks.iter().rev().take(8));
+                            b.into_iter().collect()
+                        };
+                        let plan: Option<&str> = match name.as_str() {
+                            "openat" | "open" | "creat" => Some("EACCES"),
+                            "write" | "pwrite64" => Some("ENOSPC"),
+                            "rename" | "renameat" | "renameat2" | "unlink" | "unlinkat" => Some("EACCES"),
+                            _ => None,
+                        };
+                        for k in chosen {
+                            kill_cases.push(PathCase {
+                                spec: cb.spec.clone(),
+                                kind: cb.kind,
+                                pre: sp.clone(),
+                                fault: Fault::Inject(Inject::Kill { syscall: name.clone(), k }),
+                                name: None,
+                                stale_tmp: None,
+                            });
+                            if let (Some(errno), true) = (plan, ks.len() <= 12) {
+                                errno_cases.push(PathCase {
+                                    spec: cb.spec.clone(),
+                                    kind: cb.kind,
+                                    pre: sp.clone(),
+                                    fault: Fault::Inject(Inject::Errno { syscall: name.clone(), k, errno: errno.into(), persistent: name.contains("write") }),
+                                    name: None,
+                                    stale_tmp: None,
+                                });
+                            }
+                        }
+                    }
+                }
                 // one point before BEGIN: must be classified trivial and leave the destination alone
                 if let Some((name, k)) = pre_begin_one {
                     kill_cases.push(PathCase {
@@ -1473,7 +1614,7 @@ fn extra(ctx: &Ctx) {
             Stale { len: (full + 7000) as u32, readonly: true },
         ];
         for st in &stales {
-            let mut faults = vec![(Fault::None, Pre::Old { len: 1500 }), (Fault::None, Pre::Absent), (Fault::Fsize { limit: (full / 2).max(1) }, Pre::Old { len: 1500 }), (Fault::Fsize { limit: full.saturating_sub(1) }, Pre::Absent)];
+            let mut faults = vec![(Fault::None, Pre::Old { len: 1500 }), (Fault::None, Pre::Absent), (Fault::None, Pre::OldReadOnly { len: 1500 }), (Fault::None, Pre::SymlinkToOld { len: 1500 }), (Fault::Fsize { limit: (full / 2).max(1) }, Pre::Old { len: 1500 }), (Fault::Fsize { limit: full.saturating_sub(1) }, Pre::Absent)];
             if let (Some((name, k)), false) = (&rename_point, st.readonly) {
                 faults.push((Fault::Inject(Inject::Kill { syscall: name.clone(), k: *k }), Pre::Old { len: 1500 }));
                 faults.push((Fault::Inject(Inject::Errno { syscall: name.clone(), k: *k, errno: "EACCES".into(), persistent: false }), Pre::Old { len: 1500 }));
@@ -1498,6 +1639,8 @@ fn extra(ctx: &Ctx) {
             let mk = |pre: Pre, fault: Fault, stale: Option<Stale>| PathCase { spec: cb.spec.clone(), kind: cb.kind, pre, fault, name: Some(name.clone()), stale_tmp: stale };
             name_cases.push(mk(Pre::Absent, Fault::None, None));
             name_cases.push(mk(Pre::Old { len: 1500 }, Fault::None, None));
+            name_cases.push(mk(Pre::OldReadOnly { len: 1500 }, Fault::None, None));
+            name_cases.push(mk(Pre::SymlinkToOld { len: 1500 }, Fault::Fsize { limit: (full / 2).max(1) }, None));
             name_cases.push(mk(Pre::Old { len: 1500 }, Fault::Fsize { limit: (full / 2).max(1) }, None));
             name_cases.push(mk(Pre::Old { len: (full + 20_000) as u32 }, Fault::Fsize { limit: 1 }, None));
             name_cases.push(mk(Pre::Absent, Fault::Fsize { limit: full.saturating_sub(1) }, None));
@@ -1529,6 +1672,9 @@ fn extra(ctx: &Ctx) {
         if let Some((rn, k)) = &rename_point {
             firsts.push((Fault::Inject(Inject::Kill { syscall: rn.clone(), k: *k }), Pre::Old { len: 1500 }));
             firsts.push((Fault::Inject(Inject::Kill { syscall: rn.clone(), k: *k }), Pre::Absent));
+            firsts.push((Fault::Inject(Inject::Kill { syscall: rn.clone(), k: *k }), Pre::OldReadOnly { len: 1500 }));
+            firsts.push((Fault::Inject(Inject::Errno { syscall: rn.clone(), k: *k, errno: "EACCES".into(), persistent: false }), Pre::OldReadOnly { len: 1500 }));
+            firsts.push((Fault::Inject(Inject::Kill { syscall: rn.clone(), k: *k }), Pre::SymlinkToOld { len: 1500 }));
             firsts.push((Fault::Inject(Inject::Errno { syscall: rn.clone(), k: *k, errno: "EACCES".into(), persistent: false }), Pre::Old { len: 1500 }));
             // killed after the data was written, before the temp file is closed and renamed
             if let Some(k) = traces.iter().flatten().flat_map(|t| t.iter()).find(|l| l.after_begin && l.name == "close").map(|l| l.k) {
@@ -1587,6 +1733,21 @@ fn extra(ctx: &Ctx) {
             old_len: 30_000,
             observers: 2,
             name: None,
+            readonly: false,
+        });
+        // read-only destination at the start of every save (small files: fast reader loop)
+        obs_cases.push(ObsCase {
+            kind,
+            spec_a: spec(2, 2, 6, s(7)),
+            spec_b: spec(20, 4, 12, s(8)),
+            iterations: match kind {
+                SaveKind::Password => ctx.tier.pick(12, 80),
+                _ => ctx.tier.pick(300, 3000),
+            },
+            old_len: 3000,
+            observers: 2,
+            name: None,
+            readonly: true,
         });
         // and a pair that fits the buffer (xlsx, csv)
         if matches!(kind, SaveKind::Xlsx | SaveKind::Csv) {
@@ -1598,6 +1759,7 @@ fn extra(ctx: &Ctx) {
                 old_len: 3000,
                 observers: 2,
                 name: None,
+                readonly: false,
             });
             // the same with a destination that is itself called *.tmp
             obs_cases.push(ObsCase {
@@ -1608,6 +1770,7 @@ fn extra(ctx: &Ctx) {
                 old_len: 3000,
                 observers: 2,
                 name: Some("book.tmp".into()),
+                readonly: false,
             });
         }
     }
@@ -1648,6 +1811,7 @@ fn extra(ctx: &Ctx) {
                     _ => ctx.tier.pick(60, 1000),
                 },
                 old_len: 2000,
+                readonly: j == 1,
             });
         }
     }
